@@ -12,23 +12,24 @@ variable {D : SlabID → DigestFn 4} {rank : SlabID → Nat}
 
 /-- what the tracked induction delivers for a notification from `y` -/
 structure NDPost (rank : SlabID → Nat) (y : SlabID) (w : World) (cx : Ctx) (w' : World) (cx' : Ctx) : Prop where
-  track : Track y w cx w' cx'
+  track : UniqueRef w' → Track y w cx w' cx'
   sig : ContsSig w w'
   above : ∀ z, z ≠ y → rank y ≤ rank z → w'.cont? z = w.cont? z
   self : ∀ c, w.cont? y = some c → ∃ c', w'.cont? y = some c' ∧ FormRel c c'
 
-/-- the statement proved by induction on the fuel: `WPre` / `hsame` as in `NotifyHeap`; every live
-    container is referenced at most once; the handle of `y` is current -/
+/-- the statement proved by induction on the fuel: `WPre` / `hsame` as in `NotifyHeap`; the handle of
+    `y` is current.  (`NDPost.track` is conditional on `UniqueRef` of the FINAL world: the chain keeps
+    every signature, so this is `UniqueRef` of every world of the chain.) -/
 def NotifyDeep (D : SlabID → DigestFn 4) (rank : SlabID → Nat) (fuel : Nat) : Prop :=
   ∀ w0 ctr0 w y cx w' cx', WPre D rank w0 ctr0 w cx.ctr → (∀ z, rank z < rank y → w.cont? z = w0.cont? z) →
-    UniqueRef w → HandleOk w y →
+    HandleOk w y →
     notifyParent fuel w y cx = .ok (w', cx') → NDPost rank y w cx w' cx'
 
 /-- a notification that changes no container: nothing to account for unless `y` is inlined and held -/
 theorem ndpost_same {y : SlabID} {w w' : World} {cx : Ctx} (hc : ∀ z, w'.cont? z = w.cont? z) (hT : w'.T = w.T)
     (hno : Inl w y → (∃ q, World.Holds w q y) → False) : NDPost rank y w cx w' cx := by
   refine ⟨?_, ⟨hT, fun q => by rw [hc]⟩, fun z _ _ => hc z, fun c h => ⟨c, by rw [hc]; exact h, FormRel.refl c⟩⟩
-  intro id s hs' _ ⟨x, hx, hcase⟩
+  intro _ id s hs' _ ⟨x, hx, hcase⟩
   exfalso
   rcases hcase with h | ⟨rfl, h⟩
   · exact h (Or.inl (hc x))
@@ -62,7 +63,6 @@ theorem uniq_pos {w : World} (hu : UniqueRef w) {q y : SlabID} {a : Arr} (hq : w
 theorem deep_arr_core {fuel : Nat} (IH : NotifyDeep D rank fuel) {w0 w : World} {ctr0 : Nat} {y : SlabID} {cx : Ctx}
     {hi : HInfo} {c : Cont} {pa : Arr} {idx : Nat} {el : Elem}
     (P : WPre D rank w0 ctr0 w cx.ctr) (hsame : ∀ z, rank z < rank y → w.cont? z = w0.cont? z)
-    (U : UniqueRef w)
     (hh : AList.find? w.hinfo y = some hi) (hc : w.cont? y = some c)
     (hpa : w.cont? hi.parent = some (.arr pa))
     (hge : pa.toList[idx]? = some el) (hel : el.pay = .ref y) (hpar : HandleOk w hi.parent)
@@ -170,34 +170,36 @@ theorem deep_arr_core {fuel : Nat} (IH : NotifyDeep D rank fuel) {w0 w : World} 
             CurKept.of_sig hS12 hidx12 (fun x hix hx _ => by simp only [hinfo_setCont, hh1]; exact hx)
           have hpar2 : HandleOk (w1.setCont hi.parent (.arr a')) hi.parent :=
             hpar.transfer (fun p x => (hS12.holds_iff p x).mp) hcur12
-          have U2 : UniqueRef (w1.setCont hi.parent (.arr a')) := hS12.uniqueRef U
           -- the induction hypothesis and the account of the recursive notification
-          obtain ⟨tr3, sig3, above3, self3⟩ := IH w0 ctr0 _ hi.parent cx2 w3 cx4 P2 hsame2 U2 hpar2 hnp
+          obtain ⟨tr3, sig3, above3, self3⟩ := IH w0 ctr0 _ hi.parent cx2 w3 cx4 P2 hsame2 hpar2 hnp
           have post23 : Post (w1.setCont hi.parent (.arr a')) cx2 w3 cx4 :=
             notifyHeap D rank fuel w0 ctr0 _ hi.parent cx2 w3 cx4 P2 hsame2 hnp
           obtain ⟨qc3, hq3, hf3⟩ := self3 (.arr a') (cont?_setCont_self _ _ _)
           have h3y : w3.cont? y = some c1 := by
             rw [above3 y hne (Nat.le_of_lt hrk), cont?_setCont_ne _ _ _ _ hne]; exact hc1
           have hS13 : ContsSig w w3 := hS12.trans sig3
-          have U3 : UniqueRef w3 := hS13.uniqueRef U
           have hqy3 : World.Holds w3 hi.parent y := hS13.holds hpy
           have hy2 : ((w1.setCont hi.parent (.arr a')).cont? y).isSome := by
             rw [cont?_setCont_ne _ _ _ _ hne, hc1]; rfl
-          -- the holder of the reference to `y`
-          have hholdq : ∀ id s, (id, s) ∈ (Cont.arr a').treeSlabs → ((Cont.arr pa).isInlined = true → id ≠ hi.parent) →
-              (∃ e1 ∈ C10Persist.slabElems s, e1.pay = .ref y) → StoredSince cx1 cx2 id := by
-            intro id s h1 h2 h3
-            refine arr_hold hlegal1 hpok hve hpe hs hinl' (uniq_pos U2 (cont?_setCont_self _ _ _) hy2) id s h1 ?_ h3
-            intro hi0
-            rw [hrid, hvid]
-            exact h2 hi0
           have hcw4 : ∀ z, (w3.setCallbackArr hi.parent idx (.child y hi.wrap)).cont? z = w3.cont? z :=
             fun z => cont?_setCallbackArr _ _ _ _ _
           refine ⟨?_, ?_, ?_, ?_⟩
-          · exact track_step (w := w) (w1 := w1) (w2 := w1.setCont hi.parent (.arr a')) (w3 := w3) (qc := .arr pa)
+          · intro U4
+            have U3 : UniqueRef w3 := by
+              refine ContsSig.uniqueRef ⟨(T_setCallbackArr _ _ _ _).symm, fun q => by rw [hcw4]⟩ U4
+            have U2 : UniqueRef (w1.setCont hi.parent (.arr a')) := sig3.symm.uniqueRef U3
+            -- the holder of the reference to `y`
+            have hholdq : ∀ id s, (id, s) ∈ (Cont.arr a').treeSlabs → ((Cont.arr pa).isInlined = true → id ≠ hi.parent) →
+                (∃ e1 ∈ C10Persist.slabElems s, e1.pay = .ref y) → StoredSince cx1 cx2 id := by
+              intro id s h1 h2 h3
+              refine arr_hold hlegal1 hpok hve hpe hs hinl' (uniq_pos U2 (cont?_setCont_self _ _ _) hy2) id s h1 ?_ h3
+              intro hi0
+              rw [hrid, hvid]
+              exact h2 hi0
+            exact track_step (w := w) (w1 := w1) (w2 := w1.setCont hi.parent (.arr a')) (w3 := w3) (qc := .arr pa)
               (qc' := .arr a') (c1 := c1) hne P.heap hvid hpa hcoy (cont?_setCont_self _ _ _)
               (fun z hz => cont?_setCont_ne _ _ _ _ hz) hinl' htree.1 (hrid.trans hvid)
-              (ext_of_post post1) (ext_of_log hlog) (ext_of_post post23) hholdq tr3 (kept_of_post post23)
+              (ext_of_post post1) (ext_of_log hlog) (ext_of_post post23) hholdq (tr3 U3) (kept_of_post post23)
               h3y hq3 hf3 U3 hqy3 hcw4
           · exact hS13.trans ⟨T_setCallbackArr _ _ _ _, fun q => by rw [hcw4]⟩
           · intro z hzy hrz
